@@ -213,8 +213,157 @@ def extract():
     return table, seen
 
 
+# ---------------------------------------------------------------------------
+# The StartWork/Run hand-over: which of the two shapes the model knows does the source have?
+# The statement skeleton of Deployer::Run, ::FinishWork and ::StartWork (clang AST; hook macros and
+# LOG statements dropped, everything else printed: control structure, lock guards, calls, operands)
+# must be EXACTLY one of the two skeletons below, else the fact is HUnrecognised and no theorem of
+# Properties_C15.v about the hand-over is claimed.
+def _mentions(n, pred):
+    return any(pred(x) for x in walk_all(n))
+
+
+_CONTROL = ("CompoundStmt", "IfStmt", "DoStmt", "WhileStmt", "ForStmt", "CXXTryStmt", "CXXCatchStmt", "ReturnStmt", "DeclStmt")
+
+
+def _is_noise(n):
+    """a statement that is a RIME_VERIF_* hook macro (`do { if (hook) hook(..); } while (0)`) or a glog
+    LOG(...) expression statement"""
+    def hook(x):
+        return x.get("kind") == "DeclRefExpr" and x.get("referencedDecl", {}).get("name", "").startswith("rime_verif_")
+
+    def glog(x):
+        return "LogMessage" in x.get("type", {}).get("qualType", "")
+    k = n.get("kind")
+    if k == "DoStmt":
+        inner = n.get("inner", []) or []
+        cond = strip(inner[1]) if len(inner) > 1 else {}
+        return cond.get("kind") == "IntegerLiteral" and str(cond.get("value")) == "0" and _mentions(inner[0], hook)
+    if k in _CONTROL:
+        return False
+    return _mentions(n, glog)
+
+
+def skel(n):
+    n = strip(n)
+    k = n.get("kind")
+    inner = n.get("inner", []) or []
+    if k == "CompoundStmt":
+        return "{" + ";".join(skel(c) for c in inner if not _is_noise(c)) + "}"
+    if k == "DeclStmt":
+        out = []
+        for v in inner:
+            if v.get("kind") == "VarDecl" and LOCK_TYPES.search(v.get("type", {}).get("qualType", "")):
+                ms = [x.get("name") for x in walk_all(v) if x.get("kind") == "MemberExpr" and "mutex" in x.get("type", {}).get("qualType", "")]
+                out.append("lock(%s)" % ",".join(ms))
+            elif v.get("kind") == "VarDecl":
+                init = [c for c in v.get("inner", []) or []]
+                out.append("var %s=%s" % (v.get("name"), ",".join(skel(c) for c in init)))
+            else:
+                out.append("<%s>" % v.get("kind"))
+        return ",".join(out)
+    if k == "IfStmt":
+        parts = [skel(c) for c in inner]
+        return "if(" + parts[0] + ")" + parts[1] + ("else" + parts[2] if len(parts) > 2 else "") + ("".join("?" + x for x in parts[3:]))
+    if k == "DoStmt":
+        return "do" + skel(inner[0]) + "while(" + skel(inner[1]) + ")"
+    if k in ("WhileStmt", "ForStmt"):
+        return k[:-4].lower() + "(" + ",".join(skel(c) for c in inner[:-1] if c) + ")" + skel(inner[-1])
+    if k == "ReturnStmt":
+        return "return " + ",".join(skel(c) for c in inner)
+    if k == "CXXTryStmt":
+        return "try" + "".join(skel(c) for c in inner)
+    if k == "CXXCatchStmt":
+        body = [c for c in inner if c.get("kind") == "CompoundStmt"]
+        var = [c for c in inner if c.get("kind") == "VarDecl"]
+        return "catch(%s)" % (var[0].get("type", {}).get("qualType", "?") if var else "...") + "".join(skel(c) for c in body)
+    if k == "CXXThrowExpr":
+        return "throw " + ",".join(skel(c) for c in inner)
+    if k == "MemberExpr":
+        b = strip(inner[0]) if inner else {}
+        if b.get("kind") == "CXXThisExpr":
+            return n.get("name", "?")
+        return skel(b) + "." + n.get("name", "?")
+    if k in ("CXXMemberCallExpr", "CallExpr"):
+        return skel(inner[0]) + "(" + ",".join(skel(a) for a in inner[1:]) + ")"
+    if k == "CXXOperatorCallExpr":
+        op = strip(inner[0]).get("referencedDecl", {}).get("name", "?")
+        return op + "(" + ",".join(skel(a) for a in inner[1:]) + ")"
+    if k == "UnaryOperator":
+        return n.get("opcode", "?") + skel(inner[0])
+    if k in ("BinaryOperator", "CompoundAssignOperator"):
+        return "(" + skel(inner[0]) + n.get("opcode", "?") + skel(inner[1]) + ")"
+    if k == "ConditionalOperator":
+        return "(" + skel(inner[0]) + "?" + skel(inner[1]) + ":" + skel(inner[2]) + ")"
+    if k == "CXXBoolLiteralExpr":
+        return "true" if n.get("value") else "false"
+    if k in ("IntegerLiteral", "StringLiteral"):
+        return str(n.get("value"))
+    if k == "DeclRefExpr":
+        return n.get("referencedDecl", {}).get("name", "?")
+    if k == "CXXThisExpr":
+        return "this"
+    if k == "LambdaExpr":
+        body = [c for c in inner if c.get("kind") == "CompoundStmt"]
+        return "lambda" + "".join(skel(b) for b in body[-1:])
+    if k in ("CXXConstructExpr", "CXXTemporaryObjectExpr"):
+        return "ctor(" + ",".join(skel(a) for a in inner) + ")"
+    if k == "NullStmt":
+        return ""
+    return "<%s>(" % k + ",".join(skel(c) for c in inner) + ")"
+
+
+HANDOVER_FUNCTIONS = ("Run", "FinishWork", "StartWork")
+SKELETONS = {
+    "HFuture": {
+        "Run": ('{operator()(message_sink_,ctor("deploy",<CXXDefaultArgExpr>()),ctor("start",<CXXDefaultArgExpr>()));'
+            'var success=0;var failure=0;do{while(var task=NextTask(),task.operator bool()){try{if(operator->(tas'
+            'k).Run(this))++successelse++failure}catch(const std::exception &){++failure}};operator()(message_sin'
+            'k_,ctor("deploy",<CXXDefaultArgExpr>()),ctor((!failure?"success":"failure"),<CXXDefaultArgExpr>()))}'
+            'while(HasPendingTasks());return !failure}'),
+        "FinishWork": None,
+        "StartWork": ('{if(IsWorking()){return false};(maintenance_mode_=maintenance_mode);if(pending_tasks_.empty()){retur'
+            'n false};operator=(work_,async(async,lambda{Run()}));return work_.valid()}'),
+    },
+    "HFlag": {
+        "Run": ('{operator()(message_sink_,ctor("deploy",<CXXDefaultArgExpr>()),ctor("start",<CXXDefaultArgExpr>()));'
+            'var success=0;var failure=0;do{while(var task=NextTask(),task.operator bool()){try{if(operator->(tas'
+            'k).Run(this))++successelse++failure}catch(const std::exception &){++failure}};operator()(message_sin'
+            'k_,ctor("deploy",<CXXDefaultArgExpr>()),ctor((!failure?"success":"failure"),<CXXDefaultArgExpr>()))}'
+            'while(!FinishWork());return !failure}'),
+        "FinishWork": ('{lock(mutex_);if(!pending_tasks_.empty())return false;(running_=false);return true}'),
+        "StartWork": ('{var num_tasks=0;{lock(mutex_);if(running_){return false};(maintenance_mode_=maintenance_mode);if(pe'
+            'nding_tasks_.empty()){return false};(num_tasks=pending_tasks_.size());(running_=true)};if(work_.vali'
+            'd())work_.wait();operator=(work_,async(async,lambda{try{Run()}catch(...){lock(mutex_);(running_=fals'
+            'e);throw }}));return work_.valid()}'),
+    },
+}
+
+
+def handover_skeletons():
+    objs = clang_ast(os.path.join(vlib.REPO, CLASSES["Deployer"]), "Deployer")
+    ms, _ = methods_of(objs, "Deployer")
+    out, done = {}, set()
+    for name, decl in ms:
+        if name in HANDOVER_FUNCTIONS and decl.get("id") not in done:
+            done.add(decl.get("id"))
+            for b in decl.get("inner", []):
+                if b.get("kind") == "CompoundStmt":
+                    out[name] = skel(b) if name not in out else out[name] + "|" + skel(b)
+    return out
+
+
+def handover_fact(sk=None):
+    sk = handover_skeletons() if sk is None else sk
+    for fact, want in SKELETONS.items():
+        if all(sk.get(f) == want[f] for f in HANDOVER_FUNCTIONS):
+            return fact, sk
+    return "HUnrecognised", sk
+
+
 def generate():
     table, seen = extract()
+    fact, sk = handover_fact()
     q = lambda s: '"%s"' % s
     lines = ["(* GENERATED by /verif/gen/lock_scopes.py from %s/src/rime/{deployer,service}.cc (clang AST) - do not edit *)" % vlib.REPO,
              "From Coq Require Import List String.", "From RimeV Require Import Dep.Sched.",
@@ -227,12 +376,21 @@ def generate():
     lines.append("].")
     lines.append("")
     lines.append("Definition analysed_functions : list string := [%s]." % "; ".join(q(s) for s in seen))
+    lines.append("")
+    lines.append("(* the StartWork/Run hand-over recognised from the statement skeletons of Deployer::Run, ::FinishWork, ::StartWork *)")
+    lines.append("Definition handover_fact : handover := %s." % fact)
+    lines.append("Definition handover_skeletons : list (string * string) := [%s]." % "; ".join(
+        "(%s, %s)" % (q(f), q((sk.get(f) or "").replace('"', '""'))) for f in HANDOVER_FUNCTIONS))
     vlib.write_if_changed(os.path.join(vlib.COQ, "Gen", "LockScopes.v"), "\n".join(lines) + "\n")
     return table, seen
 
 
 if __name__ == "__main__":
     t, seen = generate()
+    f, sk = handover_fact()
+    print("handover:", f)
+    for k2 in HANDOVER_FUNCTIONS:
+        print("  %-10s %s" % (k2, sk.get(k2)))
     for fn, var, kind, locks in t:
         print("%-36s %-36s %-8s %s" % (fn, var, kind, ",".join(locks) or "-"))
     print("functions:", " ".join(seen))
